@@ -151,8 +151,9 @@ def run(ctx, mode):
     if not found:
         common.go_build(['corrprove'])
         word = 'insertion' if mode == 'ins' else 'deletion'
-        for pargs in ([['-seed', ctx.seed, '-n', 6, '-depth', 31, '-batch', 1], ['-seed', ctx.seed, '-n', 8, '-depth', 2, '-batch', 2]]
-                      + ([['-seed', ctx.seed + 1, '-n', 60, '-depth', 31, '-batch', 2], ['-seed', ctx.seed + 2, '-n', 60, '-depth', 5, '-batch', 3]] if ctx.thorough else [])):
+        # the deepest trees: insertion stops at depth 32, deletion at 31 (uint32 index arithmetic wraps there)
+        for pargs in ([['-seed', ctx.seed, '-n', 6, '-depth', 32, '-deldepth', 31, '-batch', 1], ['-seed', ctx.seed, '-n', 8, '-depth', 2, '-batch', 2]]
+                      + ([['-seed', ctx.seed + 1, '-n', 60, '-depth', 32, '-deldepth', 31, '-batch', 2], ['-seed', ctx.seed + 2, '-n', 60, '-depth', 5, '-batch', 3]] if ctx.thorough else [])):
             n_, pm, _ = common.corr(ctx, 'prove-verify', 'corrprove', pargs, ['corr', 'prove'], timeout=7200)
             pm = [m for m in pm if m[1].startswith('prove\t' + word) or m[1].startswith('verify')]
             ctx.oblige(f'T-corr service path {pargs}: real Setup/Prove/Verify = model', not pm, '' if not pm else str(pm[0][1:])[:300])
